@@ -133,6 +133,16 @@ def main():
     rnd.shuffle(all_sites)
     done = 0
     tried = 0
+    seen = set()
+    if os.path.exists(outp):
+        for l in open(outp):
+            try:
+                x = json.loads(l)
+                seen.add((x["file"], x["line"], x["new"]))
+                if x["status"] != "killed_by_build_or_tests":
+                    done += 1
+            except Exception:
+                pass
     for (f, i, a, b, r) in all_sites:
         if done >= count:
             break
@@ -142,6 +152,8 @@ def main():
         lines = src.split("\n")
         old = lines[i]
         new = old[:a] + r + old[b:]
+        if (f, i + 1, new.strip()) in seen:
+            continue
         lines[i] = new
         open(path, "w").write("\n".join(lines))
         rec = {"file": f, "line": i + 1, "old": old.strip(), "new": new.strip(), "repo_head": head}
@@ -162,7 +174,7 @@ def main():
                     caught = True
                     break
             if not caught:
-                for prop in ALL:
+                for prop in ["C06", "C09", "C10", "C13", "C04", "C01", "C08", "C12", "C15", "C16"]:
                     if prop in res:
                         continue
                     rc, o = sh(f"./check {prop} quick", timeout=2400, cwd=VC, env={"RSSV_REPO": WT, "RSSV_VERIF_DIR": VC, "RSSV_TARGET_DIR": VC + "/target"})
